@@ -7,7 +7,7 @@ from rules import anchors, common
 
 CLAIMED = True
 TECHNIQUE = "static analysis over type-checked MIR: single-snapshot-load dominance in Log::{log,enabled,flush}, snapshot immutability/ownership inventory, build-then-store ordering, lock-free delivery cone, reloader loop/edge reachability"
-LEVEL_TEXT = """Static, all-paths decision of: (A1) each of Log::log/enabled/flush has exactly one ArcSwap::load site, outside any loop, and every access to the snapshot's fields (root, appender table, error handler) goes through that one guard; (A2) Logger holds one Arc<ArcSwap<snapshot>>, the snapshot owns tree and appender table, has no interior mutability of its own, its aggregate is built only in the constructor and the tree's mutator is called only from the constructor and itself; (A3) Handle::set_config builds a complete snapshot from the new config before the single store, which lies on every path to return; (A4) the delivery cone of Log::log (cut at dyn Append/Filter) acquires no lock, so a re-entrant set_config cannot self-deadlock; (A5) reloader control flow: in run the Err arm returns to the loop head and only Ok(None) leaves; in run_once set_config is dominated by the Ok edge of Format::parse and control-dependent on the text having changed, the unchanged-mtime/unchanged-text edges return Ok(Some(rate)) without reaching the handle, and the new rate is the parsed config's refresh_rate(). arc-swap's own guarantees, real interleavings and file-system timestamps are not decided. (A12) no un-discharged panic site in what the refresh thread itself runs (the loop, run_once, reading the file, the error reporter); parsing, building and the swap are inventoried under C14.K8 / C13.V4."""
+LEVEL_TEXT = """Static, all-paths decision of: (A1) each of Log::log/enabled/flush has exactly one ArcSwap::load site, outside any loop, and every access to the snapshot's fields (root, appender table, error handler) goes through that one guard; (A2) Logger holds one Arc<ArcSwap<snapshot>>, the snapshot owns tree and appender table, has no interior mutability of its own, its aggregate is built only in the constructor and the tree's mutator is called only from the constructor and itself; (A3) Handle::set_config builds a complete snapshot from the new config before the single store, which lies on every path to return; (A4) the delivery cone of Log::log (cut at dyn Append/Filter) acquires no lock, so a re-entrant set_config cannot self-deadlock; (A5) reloader control flow: in run the Err arm returns to the loop head and only Ok(None) leaves; in run_once set_config is dominated by the Ok edge of Format::parse and control-dependent on the text having changed, the unchanged-mtime/unchanged-text edges return Ok(Some(rate)) without reaching the handle, and the new rate is the parsed config's refresh_rate(). arc-swap's own guarantees, real interleavings and file-system timestamps are not decided. (A12) no un-discharged panic site in what the refresh thread itself runs (the loop, run_once, reading the file, the error reporter); parsing, building and the swap are inventoried under C14.K8 / C13.V4. (A6, cont.) the reloader polls the path it was given (no canonicalize/read_link); (A1, cont.) no function called from log/enabled/flush loads the configuration again; (A13) raw-to-runtime fidelity (C14.K7)."""
 LEVEL_NOTE = "Trusted: rustc MIR/callee resolution; arc-swap (atomic swap, guard keeps the old snapshot alive, store does not wait on readers); std fs timestamps."
 EXPLANATION = """Decided: A1 one snapshot per call, A2 immutable self-contained snapshot, A3 build-then-store, A4 no lock across delivery, A5 reloader loop and edges. Undecided: arc-swap internals, actual interleavings, file-system timestamp behaviour."""
 DECIDED = ["A1 single load dominating all snapshot accesses", "A2 snapshot immutability/ownership", "A3 complete build before single store", "A4 lock-free delivery", "A5 reloader control flow", "A6 the reloader is started with the text that was loaded and a modification time read right beside it", "A7 changes detected through the path", "A8 remembered text is the text last read", "A9 whole-document parsers", "A10 the lossy build leaves no dangling reference (C13.V2 re-evaluated)"]
@@ -102,6 +102,16 @@ def rule_one_snapshot(ctx, p, cfg, rid="A1"):
             # no other way to the snapshot: no load_full / swap / clone of the Arc in these functions
             other = [c.callee for c in f.calls() if (c.callee or "").startswith("arc_swap::") and c.callee != anchors.LOAD]
             r.require(not other, "%s:no-other-arcswap-access" % name, fn=f, detail="other arc-swap calls: %s" % other)
+            # ... nor through a function it calls: `if !self.enabled(..) { return }` in front of the load is a second snapshot
+            via = []
+            for c in f.calls():
+                tgt = c.t.get("resolved") if c.t.get("resolved_local") else c.callee
+                if tgt in p.fns and tgt != path:
+                    sub = p.cone([tgt], cut_traits=("append::Append", "filter::Filter", "encode::Encode"))
+                    if any(p.fns[x].calls(anchors.LOAD) or any((cc.callee or "").startswith("arc_swap::") for cc in p.fns[x].calls()) for x in sub if x in p.fns):
+                        via.append(tgt)
+            r.require(not via, "%s:no-load-through-a-callee" % name, fn=f, detail="no function called from %s loads the configuration again" % name,
+                      fail_detail="%s also calls %s, which loads the configuration on its own: a reconfiguration between the two loads lets one call decide on two configurations" % (name, via))
         # in log(): root, appender table and handler all appear
         f = p.fn_loops(anchors.LOG_LOG)
         used = set()
@@ -256,6 +266,8 @@ def run_cfg(ctx, p, cfg):
         # name a logger still refers to, so no dangling reference may survive the build (C13.V2 re-evaluated)
         from rules import c13
         c13.rule_retention(ctx, p, cfg, "A10")
+        from rules import c14
+        c14.rule_raw_to_runtime(ctx, p, cfg, "A13")   # "applies a changed file's configuration": what the new document says is what is installed (C14.K7 re-evaluated)
     from rules import c02
     c02.rule_install_publishes(ctx, p, cfg, "A11")   # "records logged after the swap use the new configuration": the facade's global maximum published with a swap is the new logger's
     rule_one_snapshot(ctx, p, cfg, "A1")
